@@ -5,9 +5,10 @@
 import NautilusVerif.Driver.ShiftD
 import NautilusVerif.Driver.Prior
 import NautilusVerif.Driver.ResampleD
+import NautilusVerif.Driver.UnionD
 open NautilusVerif
 
-def handlers : List (List String → Option String) := [ShiftDriver.handle, PriorDriver.handle, ResampleDriver.handle]
+def handlers : List (List String → Option String) := [ShiftDriver.handle, PriorDriver.handle, ResampleDriver.handle, UnionDriver.handle]
 
 def step (line : String) : String :=
   let ws := (line.trimAscii.toString.splitOn " ").filter (· ≠ "")
